@@ -1,9 +1,11 @@
 use crate::runner::PropDef;
 
 pub mod c04;
+pub mod c06;
+pub mod c10;
 
 pub fn all() -> Vec<&'static PropDef> {
-    vec![&c04::PROP]
+    vec![&c04::PROP, &c06::PROP, &c10::PROP]
 }
 
 pub fn get(id: &str) -> Option<&'static PropDef> {
